@@ -30,6 +30,15 @@ def run_property(prop, tier, seed, repo=None, out=sys.stdout, eng=None,
         from .paths import Interp
         p0 = Interp.paths_used
         mod.run(ctx, eng)
+        # a rule that reads the extracted state machines reads them by
+        # member NAME: that is only the program's meaning while no two
+        # members of an enumeration share a value (Enum aliasing)
+        import inspect
+        src = inspect.getsource(mod)
+        if 'eng.fsm' in src or 'compare_cells' in src or \
+                'compare_conn' in src:
+            from .rules import common
+            common.enums_distinct(ctx, eng)
         ctx.record('paths_examined', Interp.paths_used - p0)
         from . import extlib
         for n in extlib.notes:
